@@ -1040,5 +1040,5 @@ def flags_rule(ctx: Ctx, rep: Report, h: Func) -> None:
 
 
 # what the later rounds (seeding rounds 2-5, refactor twins, defect hunt) added to what the check decides
-LATER_ROUNDS = "a refused assignment to an option, address or port expression of an entry leaves text and cover sets in agreement, members follow the group name, `any` is typed only under the test that means it"
+LATER_ROUNDS = "a refused assignment to an option, address or port expression of an entry leaves text and cover sets in agreement, members follow the group name, `any` is typed only under the test that means it, the compared sets are not edited in place, no store outside the objects feeds them"
 EXPLANATION = EXPLANATION.replace(" Does not decide", " Later rounds added: " + LATER_ROUNDS + ". Does not decide", 1) if " Does not decide" in EXPLANATION else EXPLANATION + " Later rounds added: " + LATER_ROUNDS + "."
